@@ -204,6 +204,12 @@ def randomness(ctx):
                     tab = TABLED_RANDOM.get((fn.qn, name))
                     ctx.require(bool(tab), 'C18.random', 'no untabled source of randomness, wall-clock time or object identity (%s in %s)' % (name, fn.qn), fn.site(node),
                                 '%s differs from run to run' % name, key='C18.random|%s|%s' % (fn.qn, name))
+    # dynamic imports hide a source from the enumeration above
+    for fn in M.all_funcs():
+        for node in ast.walk(fn.node):
+            if isinstance(node, ast.Call) and ((isinstance(node.func, ast.Name) and node.func.id == '__import__') or
+                                               (isinstance(node.func, ast.Attribute) and node.func.attr == 'import_module')):
+                ctx.violation('C18.random', 'no dynamic import (the source enumeration is closed-world)', fn.site(node), ast.unparse(node)[:80], key='C18.random|dynamic-import|%s' % fn.qn)
     # module level too
     for mod, (rel, tree) in M.mods.items():
         for st in tree.body:
